@@ -27,6 +27,19 @@ var c04Hidden = []string{
 	`<style style="display:block">.%w{color:red}</style>`,
 	`<p style="DISPLAY: none">%w</p>`,
 	`<span style="VISIBILITY:hidden">%w</span>`,
+	`<span style="color:red; visibility:hidden">%w</span>`,
+	// every tag the converter treats specially, hidden
+	`<font hidden>%w</font>`,
+	`<font color="red" style="display:none">%w</font>`,
+	`<a href="/x" hidden>%w</a>`,
+	`<a href="javascript:void(0)" style="display:none">%w</a>`,
+	`<ul hidden><li>%w</li></ul>`,
+	`<blockquote style="display:none">%w</blockquote>`,
+	`<pre hidden>%w</pre>`,
+	`<h2 aria-hidden="true">%w</h2>`,
+	`<table hidden><thead><tr><th>%w</th><th>b</th></tr></thead><tr><td>c</td><td>d</td></tr></table>`,
+	`<figure hidden><img src="h.png"><figcaption>%w</figcaption></figure>`,
+	`<section style="visibility:hidden"><p>%w</p></section>`,
 }
 
 // list 2: not reading content (allowed inside retained data tables and figures)
